@@ -59,6 +59,19 @@ def iv_str(x):
 def cond_to_iv(g, c_repr):
     """code points satisfying a guard on the loop's char, or None if the guard is about something else"""
     if g.b is None:
+        # `(lo..=hi).contains(&c)` with constant bounds, taken or not taken
+        a0 = g.a
+        if a0 is not None and a0.kind == "call" and str(a0.v).split("::")[-1] == "contains" and "Range" in str(a0.v) and len(a0.args) == 2 and repr(a0.args[1]) == c_repr and g.op in ("True", "False"):
+            r = a0.args[0]
+            lo = hi = None
+            if r.kind == "call" and str(r.v).endswith("RangeInclusive::new") and len(r.args) == 2 and all(x.kind == "const" for x in r.args):
+                lo, hi = r.args[0].v, r.args[1].v
+            elif r.kind == "agg" and str(r.v) == "RangeInclusive" and len(r.args) >= 2 and all(x.kind == "const" for x in r.args[:2]):
+                lo, hi = r.args[0].v, r.args[1].v
+            elif r.kind == "agg" and str(r.v) == "Range" and len(r.args) >= 2 and all(x.kind == "const" for x in r.args[:2]):
+                lo, hi = r.args[0].v, r.args[1].v - 1
+            if lo is not None:
+                return [(lo, hi)] if g.op == "True" else iv_not([(lo, hi)])
         return None
     a, b = repr(g.a), repr(g.b)
     op = g.op
